@@ -1767,7 +1767,7 @@ func (c *Ctx) c6Case(s *c6Scene, glb bool, tag string) {
 	}
 	if glb && len(o.file) <= 20000 {
 		// round 2: the Lean reader glbParse recovers text + blank padding and buffer + zero padding (glb_parse_write)
-		c.Emit("c06.holds.glbparse", "h"+hex.EncodeToString(o.file)+" h"+hex.EncodeToString(bytes.TrimRight(o.frame.json, " "))+" h"+hex.EncodeToString(o.bin), "true")
+		c.Emit("c06.holds.glbparse", "h"+hex.EncodeToString(o.file)+" h"+hex.EncodeToString(c6JSONText(o.frame.json))+" h"+hex.EncodeToString(o.bin), "true")
 	}
 	if glb {
 		c.Emit("c06.holds.frame", o.frame.tokens()+" "+strconv.Itoa(len(bytes.TrimRight(o.frame.json, " ")))+" "+strconv.Itoa(len(o.bin))+
